@@ -199,14 +199,16 @@ def lens_events(optic, meta, rnd, quick, label):
     f = fields[rnd.randrange(len(fields))]
     w = wls[rnd.randrange(len(wls))]
     rings = rnd.randint(1, 3 if quick else 8)
-    o = G.quiet(OPD, optic, f, w, rings)
+    # (whole-number field coordinates are passed as Python ints half of the time: the same field)
+    fa = tuple(int(v) if (float(v).is_integer() and rnd.random() < 0.5) else v for v in f)
+    o = G.quiet(OPD, optic, fa, w, rings)
     opds = np.array(o.data[0][0][0], dtype=float)
     ev.append(dict(W.rms_event(opds, o.rms()), _tag=dict(base, view="OPD.rms", num_rays=rings)))
     xs, ys = np.array(o.distribution.x, dtype=float), np.array(o.distribution.y, dtype=float)
     ev += block_events(optic, f, w, xs, ys, opds, np.array(o.data[0][0][1], dtype=float),
                        pick(rnd, len(xs), 3, [0]), True, dict(base, view="OPD", dist="hexapolar", num_rays=rings))
     nf = rnd.randint(2, 9 if quick else 40)
-    fan = G.quiet(OPDFan, optic, [f], [w], nf)
+    fan = G.quiet(OPDFan, optic, [fa], [w], nf)
     opds = np.array(fan.data[0][0][0], dtype=float)
     xs, ys = np.array(fan.distribution.x, dtype=float), np.array(fan.distribution.y, dtype=float)
     ev += block_events(optic, f, w, xs, ys, opds, np.array(fan.data[0][0][1], dtype=float),
